@@ -92,6 +92,45 @@ func deepDiff(path string, a, b reflect.Value) string {
 	}
 }
 
+// deepCopy returns an independent copy of a value (links to the parent sequence are left nil: deepDiff skips them).
+func deepCopy(v reflect.Value) reflect.Value {
+	switch v.Kind() {
+	case reflect.Ptr:
+		if v.IsNil() || v.Type() == seqPtrType {
+			return reflect.Zero(v.Type())
+		}
+		n := reflect.New(v.Type().Elem())
+		n.Elem().Set(deepCopy(v.Elem()))
+		return n
+	case reflect.Struct:
+		n := reflect.New(v.Type()).Elem()
+		for i := 0; i < v.NumField(); i++ {
+			n.Field(i).Set(deepCopy(v.Field(i)))
+		}
+		return n
+	case reflect.Slice:
+		if v.IsNil() {
+			return reflect.Zero(v.Type())
+		}
+		n := reflect.MakeSlice(v.Type(), v.Len(), v.Len())
+		for i := 0; i < v.Len(); i++ {
+			n.Index(i).Set(deepCopy(v.Index(i)))
+		}
+		return n
+	case reflect.Map:
+		if v.IsNil() {
+			return reflect.Zero(v.Type())
+		}
+		n := reflect.MakeMapWithSize(v.Type(), v.Len())
+		for _, k := range v.MapKeys() {
+			n.SetMapIndex(k, deepCopy(v.MapIndex(k)))
+		}
+		return n
+	default:
+		return v
+	}
+}
+
 func uniText(r *rand.Rand, n int) string {
 	if r.Intn(6) == 0 {
 		return ""
@@ -239,6 +278,7 @@ func c15Recheck(w *mon.W, id string) {
 
 func c15RoundTrip(w *mon.W, id string, x poly.Sequence, origin, tmp string, viaFile bool) (poly.Sequence, bool) {
 	c15Recheck(w, id)
+	x0 := deepCopy(reflect.ValueOf(x)) // the value as it was before any library call saw it
 	js, err := json.Marshal(x)
 	rep := map[string]any{"origin": origin, "json": clip(string(js), 6000)}
 	if err != nil {
@@ -260,7 +300,7 @@ func c15RoundTrip(w *mon.W, id string, x poly.Sequence, origin, tmp string, viaF
 		return x, false
 	}
 	w.Add("round_trips", 1)
-	if d := deepDiff("sequence", reflect.ValueOf(x), reflect.ValueOf(y)); d != "" {
+	if d := deepDiff("sequence", x0, reflect.ValueOf(y)); d != "" {
 		w.Violation(id, fmt.Sprintf("JSON round trip changed the value (%s): %s", origin, d), rep)
 		return y, false
 	}
